@@ -114,6 +114,14 @@ def run_jobs(fn, args, nproc=None):
     nproc = nproc or env.NPROC
     total = Acc()
     args = list(args)
+    # import the library under test BEFORE forking and before any per-case alarm: an alarm that fires in the middle
+    # of an import leaves half-initialised modules behind
+    try:
+        with env.quiet():
+            import sweetpea  # noqa: F401
+            import sweetpea._internal.server  # noqa: F401
+    except Exception:
+        pass
     if not args:
         return total
     root = env.scratch_root()
